@@ -4,6 +4,7 @@ package props
 
 import (
 	"fmt"
+	"sort"
 	"testing"
 
 	u "github.com/utreexo/utreexo"
@@ -14,6 +15,11 @@ import (
 type C15Case struct {
 	Blocks []Block `json:"blocks"`
 	Mems   []int   `json:"mems"` // memory limits, each tried on a fresh tracker fed the same summaries
+	// Mode: "" - a fresh tracker per limit; "shared" - one tracker asked for every limit in turn;
+	// "incremental" - one tracker, asked (for every limit) after each prefix length in Cuts and at the
+	// end, the answer judged against the blocks recorded so far.
+	Mode string `json:"mode,omitempty"`
+	Cuts []int  `json:"cuts,omitempty"`
 }
 
 func genC15(t *rapid.T) C15Case {
@@ -29,6 +35,17 @@ func genC15(t *rapid.T) C15Case {
 	c.Mems = []int{rapid.IntRange(1, 3).Draw(t, "small")}
 	if total > 0 {
 		c.Mems = append(c.Mems, rapid.IntRange(1, total).Draw(t, "mid"))
+	}
+	c.Mode = rapid.SampledFrom([]string{"", "", "shared", "incremental"}).Draw(t, "mode")
+	if c.Mode == "incremental" && len(c.Blocks) > 1 {
+		seen := map[int]bool{}
+		for k := rapid.IntRange(1, 3).Draw(t, "ncuts"); k > 0; k-- {
+			if cut := rapid.IntRange(1, len(c.Blocks)-1).Draw(t, "cut"); !seen[cut] {
+				seen[cut] = true
+				c.Cuts = append(c.Cuts, cut)
+			}
+		}
+		sort.Ints(c.Cuts)
 	}
 	// an unbounded limit is always tried: completeness is the clause most changes break
 	if rapid.Bool().Draw(t, "big") {
@@ -83,32 +100,28 @@ func runC15(c C15Case) *Result {
 		}
 		applyToModel(f, b)
 	}
-	total := len(created)
 	evictions := false
-	for _, mem := range c.Mems {
-		if mem < 1 {
-			return res.failf("case error: memory limit %d", mem)
+	// judge: is sched a valid schedule with limit mem for the first nb recorded blocks?
+	judge := func(sched [][]uint64, nb, mem int, how string) error {
+		total := 0
+		for b := 0; b < nb; b++ {
+			total += numAdds[b]
 		}
-		cs := u.NewCachingScheduleTracker(nb)
-		for i := range c.Blocks {
-			cs.AddBlockSummary(cloneU64(summaries[i]), uint16(numAdds[i]))
-		}
-		sched := cs.GenerateCachingSchedule(mem)
 		if len(sched) != nb {
-			return res.failf("GenerateCachingSchedule(%d) returned %d lists for %d recorded blocks", mem, len(sched), nb)
+			return fmt.Errorf("%sGenerateCachingSchedule(%d) returned %d lists for %d recorded blocks", how, mem, len(sched), nb)
 		}
 		scheduled := map[uint64]bool{}
 		for b, list := range sched {
 			for j, p := range list {
 				if j > 0 && list[j-1] >= p {
-					return res.failf("limit %d: schedule of block %d is %v: not strictly ascending", mem, b, list)
+					return fmt.Errorf("%slimit %d: schedule of block %d is %v: not strictly ascending", how, mem, b, list)
 				}
 				if p < firstSlot[b] || p >= firstSlot[b]+uint64(numAdds[b]) {
-					return res.failf("limit %d: block %d schedules %d, but that block added the slots [%d,%d) (schedule %v)", mem, b, p, firstSlot[b], firstSlot[b]+uint64(numAdds[b]), sched)
+					return fmt.Errorf("%slimit %d: block %d schedules %d, but that block added the slots [%d,%d) (schedule %v)", how, mem, b, p, firstSlot[b], firstSlot[b]+uint64(numAdds[b]), sched)
 				}
 				d, ok := deleted[p]
-				if !ok || d <= b {
-					return res.failf("limit %d: block %d schedules slot %d, which is not deleted in a later recorded block (schedule %v)", mem, b, p, sched)
+				if !ok || d <= b || d >= nb {
+					return fmt.Errorf("%slimit %d: block %d schedules slot %d, which is not deleted in a later recorded block (schedule %v)", how, mem, b, p, sched)
 				}
 				scheduled[p] = true
 			}
@@ -122,18 +135,19 @@ func runC15(c C15Case) *Result {
 				}
 			}
 			if n > mem {
-				return res.failf("limit %d: %d scheduled leaves exist at the same time after block %d (schedule %v)", mem, n, b, sched)
+				return fmt.Errorf("%slimit %d: %d scheduled leaves exist at the same time after block %d (schedule %v)", how, mem, n, b, sched)
 			}
 		}
 		spendable := 0
-		for s := range deleted {
-			_ = s
-			spendable++
+		for _, d := range deleted {
+			if d < nb {
+				spendable++
+			}
 		}
 		if mem >= total {
-			for s := range deleted {
-				if !scheduled[s] {
-					return res.failf("limit %d >= %d leaves ever added: slot %d (added in block %d, deleted in block %d) is not scheduled (schedule %v)", mem, total, s, created[s], deleted[s], sched)
+			for s, d := range deleted {
+				if d < nb && !scheduled[s] {
+					return fmt.Errorf("%slimit %d >= %d leaves ever added: slot %d (added in block %d, deleted in block %d) is not scheduled (schedule %v)", how, mem, total, s, created[s], deleted[s], sched)
 				}
 			}
 			res.count("unbounded-limit-runs", 1)
@@ -142,6 +156,60 @@ func runC15(c C15Case) *Result {
 		}
 		res.count("schedules", 1)
 		res.count("scheduled-leaves", len(scheduled))
+		return nil
+	}
+	for _, mem := range c.Mems {
+		if mem < 1 {
+			return res.failf("case error: memory limit %d", mem)
+		}
+	}
+	switch c.Mode {
+	case "":
+		for _, mem := range c.Mems {
+			cs := u.NewCachingScheduleTracker(nb)
+			for i := range c.Blocks {
+				cs.AddBlockSummary(cloneU64(summaries[i]), uint16(numAdds[i]))
+			}
+			if err := judge(cs.GenerateCachingSchedule(mem), nb, mem, ""); err != nil {
+				return res.failf("%v", err)
+			}
+		}
+	case "shared":
+		cs := u.NewCachingScheduleTracker(nb)
+		for i := range c.Blocks {
+			cs.AddBlockSummary(cloneU64(summaries[i]), uint16(numAdds[i]))
+		}
+		for k, mem := range c.Mems {
+			if err := judge(cs.GenerateCachingSchedule(mem), nb, mem, fmt.Sprintf("call %d on the same tracker: ", k+1)); err != nil {
+				return res.failf("%v", err)
+			}
+		}
+		res.class("tracker:asked-repeatedly")
+	case "incremental":
+		cs := u.NewCachingScheduleTracker(rapidlessCap(nb))
+		at := map[int]bool{nb: true}
+		for _, k := range c.Cuts {
+			if k < 1 || k > nb {
+				return res.failf("case error: cut %d", k)
+			}
+			at[k] = true
+		}
+		for i := range c.Blocks {
+			cs.AddBlockSummary(cloneU64(summaries[i]), uint16(numAdds[i]))
+			if !at[i+1] {
+				continue
+			}
+			for _, mem := range c.Mems {
+				if err := judge(cs.GenerateCachingSchedule(mem), i+1, mem, fmt.Sprintf("asked after %d of %d blocks: ", i+1, nb)); err != nil {
+					return res.failf("%v", err)
+				}
+			}
+		}
+		if len(c.Cuts) > 0 {
+			res.class("tracker:asked-between-blocks")
+		}
+	default:
+		return res.failf("case error: mode %q", c.Mode)
 	}
 	res.NonTrivial = sameBlockEmptyAndAdd || evictions
 	if evictions {
@@ -157,3 +225,7 @@ func runC15(c C15Case) *Result {
 func TestC15(t *testing.T) {
 	runSpec(t, Spec[C15Case]{ID: "C15", Gen: genC15, Run: runC15})
 }
+
+// rapidlessCap: the block count handed to NewCachingScheduleTracker is only a capacity hint; an
+// incremental user does not know the final count, so hand in half of it.
+func rapidlessCap(nb int) int { return nb / 2 }
